@@ -619,9 +619,12 @@ class BzrUploader:
                         self.outf.write(f"Ignoring {change.path[0]}\n")
                         self.outf.write(f"Ignoring {change.path[1]}\n")
                     continue
-                if change.changed_content:
+                if change.changed_content or (
+                    change.kind[1] == "file" and change.meta_modified()
+                ):
                     # We update the change.path[0] content because renames and
-                    # deletions are differed.
+                    # deletions are differed. (An exec-bit-only change needs
+                    # the same treatment: the mode travels with the upload.)
                     self.upload_file(change.path[0], change.path[1])
                 self.rename_remote(change.path[0], change.path[1])
             self.finish_renames()
